@@ -13,8 +13,20 @@
  * Line protocol:
  *
  *  G <table> <opterr> <argv> [<ptable> <plimit> <pargv>]
- *	argv:	"-" (no arguments) or comma-separated hex tokens, "_" = the
- *		empty string; argv[0] ("dir/prog") is supplied by the driver.
+ *	argv:	<counted>[/<beyond>]
+ *		counted: "-" (no arguments) or comma-separated hex tokens, "_" =
+ *		the empty string; argv[0] ("dir/prog") is supplied by the driver;
+ *		or "0": argc == 0, there is no argv[0] (argv[0] == NULL).
+ *		beyond: comma-separated tokens which sit in the array at
+ *		argv[argc], argv[argc + 1], ... but are NOT counted in argc (the
+ *		caller parses only the first words of a longer command line, or
+ *		built a vector without a terminating NULL).  The array is then
+ *		exactly argc + |beyond| pointers with no NULL anywhere.  getopt is
+ *		given argc: the result must be that of the counted words alone.
+ *		Without "/..." the array is argc + 1 pointers, argv[argc] == NULL.
+ *	pargv:	the same, or "=": the previous parse runs over the very same
+ *		array and strings as the main one (not freed in between): one
+ *		vector parsed twice, with two tables, separated by optreset.
  *	The optional second triple is a "previous" command line which is
  *	parsed first with table <ptable>; if <plimit> >= 1 that loop is
  *	abandoned after <plimit> labels were reached (possibly in the middle
@@ -40,7 +52,7 @@
  *		of the main vector.
  *
  * Every argv string is an exact-size heap block, and so is the argv array
- * (argc + 1 pointers, NULL terminated).
+ * (argc + 1 pointers, NULL terminated, or argc + |beyond| pointers).
  *
  * The tables must stay in step with TABLES in vlib/c18.py.  THE POSITION OF
  * EVERY LINE INSIDE A GETOPT_SWITCH OF TABLES 6..13 IS PART OF THE TEST (the
@@ -493,7 +505,8 @@ static const parsefn tables[] = {
 
 struct av {
 	int argc;
-	char ** argv;		/* exact: argc + 1 pointers */
+	size_t nstr;		/* strings in the array (>= argc) */
+	char ** argv;		/* exact: argc + 1 pointers, or nstr pointers */
 	void * fargv;
 	void ** fstr;		/* blocks to free, one per string */
 };
@@ -508,27 +521,26 @@ exact_str(const char * s, size_t n, void ** tofree)
 	return (p);
 }
 
-/* Build an argument vector from "-" | tok,tok,... */
-static void
-av_build(struct av * a, const char * spec)
+/* Number of tokens in tok,tok,... */
+static size_t
+ntoks(const char * p, const char * end)
 {
-	size_t n = 0, i;
-	const char * p;
+	size_t n = 1;
 
-	if (strcmp(spec, "-") != 0) {
-		n = 1;
-		for (p = spec; *p; p++)
-			if (*p == ',')
-				n++;
-	}
-	a->argc = (int)(n + 1);
-	a->argv = (char **)vh_exact(NULL, (n + 2) * sizeof(char *), &a->fargv);
-	a->fstr = vh_xmalloc((n + 1) * sizeof(void *));
-	a->argv[0] = exact_str("dir/prog", 8, &a->fstr[0]);
-	p = spec;
-	for (i = 1; i <= n; i++) {
-		const char * e = strchr(p, ',');
-		size_t tl = e ? (size_t)(e - p) : strlen(p);
+	for (; p < end; p++)
+		if (*p == ',')
+			n++;
+	return (n);
+}
+
+/* Decode tok,tok,... in [p, end) into a->argv[i...]; returns the next i. */
+static size_t
+av_words(struct av * a, size_t i, const char * p, const char * end)
+{
+
+	for (;;) {
+		const char * e = memchr(p, ',', (size_t)(end - p));
+		size_t tl = e ? (size_t)(e - p) : (size_t)(end - p);
 
 		if (tl == 1 && p[0] == '_')
 			a->argv[i] = exact_str("", 0, &a->fstr[i]);
@@ -546,9 +558,43 @@ av_build(struct av * a, const char * spec)
 			vh_free(b);
 			vh_free(tok);
 		}
-		p = e ? e + 1 : p + tl;
+		i++;
+		if (e == NULL)
+			break;
+		p = e + 1;
 	}
-	a->argv[n + 1] = NULL;
+	return (i);
+}
+
+/* Build an argument vector from <counted>[/<beyond>]. */
+static void
+av_build(struct av * a, const char * spec)
+{
+	const char * slash = strchr(spec, '/');
+	const char * cend = slash ? slash : spec + strlen(spec);
+	size_t clen = (size_t)(cend - spec);
+	int noargv0 = (clen == 1 && spec[0] == '0');
+	size_t n = 0, nb = 0, i = 0, slots;
+
+	if (!noargv0 && !(clen == 1 && spec[0] == '-'))
+		n = ntoks(spec, cend);
+	if (slash)
+		nb = ntoks(slash + 1, slash + 1 + strlen(slash + 1));
+	a->argc = noargv0 ? 0 : (int)(n + 1);
+	a->nstr = (size_t)a->argc + nb;
+	slots = slash ? a->nstr : (size_t)a->argc + 1;
+	a->argv = (char **)vh_exact(NULL, slots * sizeof(char *), &a->fargv);
+	a->fstr = vh_xmalloc((a->nstr + 1) * sizeof(void *));
+	if (!noargv0)
+		a->argv[i++] = exact_str("dir/prog", 8, &a->fstr[0]);
+	if (n)
+		i = av_words(a, i, spec, cend);
+	if (slash)
+		i = av_words(a, i, slash + 1, slash + 1 + strlen(slash + 1));
+	else
+		a->argv[i] = NULL;
+	if (i != a->nstr)
+		vh_die("bad argv spec");
 }
 
 /* Upper bound on the labels a parse of this vector can reach. */
@@ -558,7 +604,7 @@ av_maxev(const struct av * a)
 	size_t n = 1;
 	int i;
 
-	for (i = 1; i < a->argc; i++)
+	for (i = 1; i < (int)a->nstr; i++)
 		n += strlen(a->argv[i]) + 1;
 	return ((int)n);
 }
@@ -633,7 +679,7 @@ av_free(struct av * a)
 {
 	int i;
 
-	for (i = 0; i < a->argc; i++)
+	for (i = 0; i < (int)a->nstr; i++)
 		free(a->fstr[i]);
 	vh_free(a->fstr);
 	free(a->fargv);
@@ -649,7 +695,7 @@ main(void)
 	while (vh_readline(&L, stdin)) {
 		struct av a;
 		size_t t, pt;
-		int limit;
+		int limit, same = 0;
 
 		if (L.ntok == 0)
 			continue;
@@ -665,7 +711,8 @@ main(void)
 			if (pt >= NTABLES)
 				vh_die("bad table");
 			limit = (int)vh_tok_i(&L, 5);
-			av_build(&a, vh_tok(&L, 6));
+			same = (strcmp(vh_tok(&L, 6), "=") == 0);
+			av_build(&a, vh_tok(&L, same ? 3 : 6));
 			if (!first)
 				optreset = 1;
 			first = 0;
@@ -676,11 +723,13 @@ main(void)
 			watchdog(1);
 			tables[pt](a.argc, a.argv, limit);
 			watchdog(0);
-			av_free(&a);
+			if (!same)
+				av_free(&a);
 		}
 
 		/* The command line of this case. */
-		av_build(&a, vh_tok(&L, 3));
+		if (!same)
+			av_build(&a, vh_tok(&L, 3));
 		if (!first)
 			optreset = 1;
 		first = 0;
